@@ -240,11 +240,17 @@ def finish(eng, prop, tier, seed, targets, records, problems, crashes, missing, 
     for f in known.get('findings', []):
         for o in f.get('obligations', []):
             kf[o] = f
+    kprefix = [(p, f) for f in known.get('findings', []) for p in f.get('obligation_prefixes', [])]
     for r in records:
         if r['status'] == 'discharged':
             continue
         base = r['name'].split('@')[0]
         f = kf.get(r['name']) or kf.get(base)
+        if f is None:
+            for p, pf in kprefix:
+                if base.startswith(p):
+                    f = pf
+                    break
         if f is not None and (prop == 'all' or prop in f.get('properties', [prop])):
             known_hits.append((f, r))
             continue
